@@ -53,11 +53,35 @@ func NewR(w *World, prop, tier string) *R {
 	return &R{W: w, Prop: prop, Tier: tier, RuleDocs: map[string]string{}, floors: map[string]int{}, Extra: map[string]interface{}{}}
 }
 
-// Rule declares a rule and its floor (minimum number of non-info obligations it must examine).
+// Rule declares a rule and its floor: the minimum number of distinct source functions in which the rule must
+// find an obligation (non-vacuity: an anchor that was renamed or moved makes the rule fail instead of pass).
+// Counting functions rather than sites keeps the floor indifferent to merging or splitting of call sites.
 func (r *R) Rule(id, doc string, floor int) {
 	r.RuleDocs[id] = doc
 	r.ruleSeq = append(r.ruleSeq, id)
 	r.floors[id] = floor
+}
+
+// floorCounts: per rule, the number of distinct source functions (closures count as their enclosing function)
+// that carry a non-info obligation.
+func (r *R) floorCounts() map[string]int {
+	seen := map[string]bool{}
+	counts := map[string]int{}
+	for _, o := range r.Obs {
+		if o.Status == Info {
+			continue
+		}
+		f := o.Func
+		if i := strings.Index(f, "$"); i >= 0 {
+			f = f[:i]
+		}
+		k := o.Rule + "\x00" + f
+		if !seen[k] {
+			seen[k] = true
+			counts[o.Rule]++
+		}
+	}
+	return counts
 }
 
 func fnShort(fn *ssa.Function) string {
@@ -158,12 +182,7 @@ func loadKnown(path string) ([]knownFinding, error) {
 // Verdict applies floors and the known-findings file and reports whether the run fails, and the first failing key
 // (used by the in-process self-test; writes nothing).
 func (r *R) Verdict(verifDir string) (fail bool, first string) {
-	counts := map[string]int{}
-	for _, o := range r.Obs {
-		if o.Status != Info {
-			counts[o.Rule]++
-		}
-	}
+	counts := r.floorCounts()
 	known, _ := loadKnown(verifDir + "/known_findings.txt")
 	for _, o := range r.Obs {
 		switch o.Status {
@@ -211,16 +230,11 @@ type evidence struct {
 
 func (r *R) Finish(verifDir string, start time.Time, seed int) int {
 	// floors
-	counts := map[string]int{}
-	for _, o := range r.Obs {
-		if o.Status != Info {
-			counts[o.Rule]++
-		}
-	}
+	counts := r.floorCounts()
 	for _, id := range r.ruleSeq {
 		if counts[id] < r.floors[id] {
 			r.addS(id, "-", "floor", "-", Undecided,
-				fmt.Sprintf("rule matched %d obligations, floor is %d: anchors moved or renamed; the rule would pass vacuously", counts[id], r.floors[id]))
+				fmt.Sprintf("rule found obligations in %d functions, floor is %d: anchors moved or renamed; the rule would pass vacuously", counts[id], r.floors[id]))
 		}
 	}
 	known, err := loadKnown(verifDir + "/known_findings.txt")
@@ -254,6 +268,11 @@ func (r *R) Finish(verifDir string, start time.Time, seed int) int {
 			} else {
 				viol = append(viol, o)
 			}
+		}
+	}
+	if os.Getenv("ARVCHECK_DUMP_OBS") != "" {
+		for _, o := range r.Obs {
+			fmt.Printf("OB\t%s\t%s\t%s\t%s\t%s\n", o.Rule, o.Status, o.Func, o.Construct, o.Pos)
 		}
 	}
 	// per-rule summary
